@@ -50,6 +50,20 @@ def bytesOf (l : List Int) : R Bytes :=
 def idxI (l : Bytes) (i : Nat) : R Int :=
   match l[i]? with | some x => .ok (x.toNat : Int) | none => .error indexError
 
+/-- a bytes object as the list of its Python ints -/
+def ints (b : Bytes) : List Int := b.map (fun x => (x.toNat : Int))
+
+/-- `sum(seq)` -/
+def sumI (l : List Int) : Int := l.foldl (· + ·) 0
+
+/-- `TABLE[i]` for an index the translator has shown to be in range (`expr & mask`, mask < len) -/
+def tableGet (t : List Int) (i : Int) : Int := t.getD i.toNat 0
+
+/-- values Python range-checks on the way (bytearray item assignment, `append`): ValueError when one is outside
+    `range(256)`, otherwise the rest of the computation -/
+def guardRange {α} (vals : List Int) (k : R α) : R α :=
+  if vals.all (fun x => decide (0 ≤ x) && decide (x < 256)) then k else .error (.py "ValueError")
+
 theorem band_ofNat (n m : Nat) : band (n : Int) m = ((n % 2 ^ bitLen m &&& m : Nat) : Int) := by
   unfold band
   have : ((n : Int) % ((2 ^ bitLen m : Nat) : Int)) = ((n % 2 ^ bitLen m : Nat) : Int) := by
